@@ -9,19 +9,19 @@ Bnd == nextId <= MaxEdits + 1 /\ Len(hist) <= 3 * MaxEdits
 Emit == (hist' # hist) => PrintT(<<"CASE", ToJson(hist')>>)
 \* replay configs: a reload is requested only right after an edit or another reload (serial), polls anywhere at rest
 PollNext == (rel = <<>> /\ (Poll \/ Request \/ \E f \in FileStates : Edit(f)))
-            \/ (\E i \in 1..Len(rel) : Acquire(i) \/ StopFirst(i) \/ Prepare(i) \/ StopOld(i) \/ ListenNew(i))
+            \/ (\E i \in 1..Len(rel) : Acquire(i) \/ StopFirst(i) \/ Prepare(i) \/ StopOld(i) \/ ListenNew(i) \/ ListenRefused(i))
 PollSpec == Init /\ [][PollNext]_vars
 '''
 FILES = {"v1", "v2", "parse", "sem", "empty", "missing"}
 
 
-def consts(files=FILES, maxrel=1, dev=(), hist=True):
-    return {"FileStates": set(files), "MaxReloads": maxrel, "Deviations": set(dev), "RecordHist": hist}
+def consts(files=FILES, maxrel=1, dev=(), hist=True, refuse=False):
+    return {"FileStates": set(files), "MaxReloads": maxrel, "Deviations": set(dev), "RecordHist": hist, "RefuseSwitch": refuse}
 
 
-def gen(ck, name, files, maxedits, seed, limit):
+def gen(ck, name, files, maxedits, seed, limit, refuse=False):
     cases = []
-    r = vf.tlc("reload", "DevReload", consts(files), spec="PollSpec", invariants=INVS, constraint="Bnd", view="View",
+    r = vf.tlc("reload", "DevReload", consts(files, refuse=refuse), spec="PollSpec", invariants=INVS, constraint="Bnd", view="View",
                action_constraint="Emit", defs=DEFS % maxedits, case_sink=cases.append, timeout=900)
     ck.expect_model_ok(name, r)
     ck.add_model(name, r)
@@ -78,7 +78,13 @@ def run(ck, tier, seed):
             continue
         seen.add(sig)
         ck.mismatch(sig, {"mismatch": m, "hist": h}, replay={"kind": "dev", "hist": h})
-    # (b) library manager: serial replay + overlapping reloads as a trace
+    # (b) library manager: serial replay + overlapping reloads as a trace.  Its server is a fake, so here the server may
+    # also refuse a version (Reload returns an error): behaviours with refused switches are added for it
+    refused = [h for h in gen(ck, "serial-cover-refused-switch", {"v1", "v2", "parse"}, 3 if quick else 4, seed, 60 if quick else 400, refuse=True)
+               if any(s.get("refused") for s in h)]
+    ck.cov["distinct_nontrivial"] += len(refused)
+    cases = cases + refused
+    vf.write_ndjson(path, [{"id": i, "hist": h} for i, h in enumerate(cases)])
     rmout = os.path.join(work, "rm.out")
     trace = os.path.join(work, "rm.trace")
     rc, txt = vf.go_test("pkg/hotreload", ["reload_test.go"], run="TestVerifReloadManager(Replay|Overlap)$", race=True,
